@@ -214,6 +214,7 @@ fn real_window(names: &[&'static str], advance: bool) -> Vec<&'static str> {
 /// worker's real environment
 pub fn scramble_undeclared(declared: &[&'static str]) -> std::collections::BTreeMap<Tok, Tok> {
     let names = undeclared(declared);
+    world::cwd_flip();
     world::real_env_flip(&real_window(&names, false));
     world::with(|s| {
         let saved = s.env.clone();
@@ -229,6 +230,7 @@ pub fn scramble_undeclared(declared: &[&'static str]) -> std::collections::BTree
 
 pub fn unscramble(declared: &[&'static str], saved: std::collections::BTreeMap<Tok, Tok>) {
     world::real_env_flip(&real_window(&undeclared(declared), true));
+    world::cwd_flip();
     world::with(|s| s.env = saved);
 }
 
@@ -296,16 +298,23 @@ pub fn run_case(case: &Case, stats: &mut Stats) -> RunReport {
     }
     let mut seam_events = 0u64;
     let mut classes = std::collections::BTreeSet::new();
+    exec::pending_clear();
     macro_rules! violation {
         ($rule:expr, $ix:expr, $key:expr, $detail:expr) => {{
-            report.violation = Some(Violation {
-                rule: $rule.to_string(),
-                op_index: $ix,
-                key: $key,
-                detail: $detail,
-            });
-            report.hash = h.finish();
-            return report;
+            let key: String = $key;
+            if crate::is_known("C04", &key) {
+                // a recorded finding: count it and carry on with the run
+                stats.bump(&format!("known-finding.{}", key));
+            } else {
+                report.violation = Some(Violation {
+                    rule: $rule.to_string(),
+                    op_index: $ix,
+                    key,
+                    detail: $detail,
+                });
+                report.hash = h.finish();
+                return report;
+            }
         }};
     }
     for (ix, op) in case.ops.iter().enumerate() {
@@ -511,6 +520,20 @@ pub fn run_case(case: &Case, stats: &mut Stats) -> RunReport {
                     "long-lived: {}\nfresh twin: {}",
                     describe(&first),
                     describe(&fresh)
+                )
+            );
+        }
+        // ---- T8: failures returned earlier in this run still render the way they did
+        stats.bump("rule.T8.evaluated");
+        if let Some((_, then, now)) = exec::pending_recheck() {
+            violation!(
+                "T8",
+                ix,
+                "rule=T8 late-rendering".to_string(),
+                format!(
+                    "a ParseFailure returned earlier in this run renders differently now that other operations have run\nwhen returned: {}\nnow          : {}",
+                    exec::clip(&format!("{:?}", then), 600),
+                    exec::clip(&format!("{:?}", now), 600)
                 )
             );
         }
